@@ -136,6 +136,24 @@ def run_shard(spec, tier, seed):
             check_solution(res, year, sol, f'{year} {fam} {p.key}', realwork.replay_of(p, 'base', spec))
             if len(res.samples) < 1:
                 res.sample({'persona': p.describe(), 'lines': {k: sol[k] for k in ('1040.24', '1040.33', '1040.34', '1040.35a', '1040.36', '1040.37') if k in sol}})
+            # the same return with the withholding moved so that payments and tax differ by less than a dollar, a cent, nothing,
+            # a dollar - with part of the refund applied to next year's estimated tax (and the same around the N.C. balance)
+            ans = dict(p.answers)
+            if 'w-2:0.box_2' in ans and '1040.24' in sol and '1040.33' in sol and (spec.get('directed') or (res.evaluations % 3 == 0)):
+                for delta, apply_ in ((0.5, 0.2), (0.01, 0.0), (0.99, 0.5), (1.0, 0.4), (0.0, 0.0), (-0.5, 0.0), (-0.01, 0.0), (37.25, 50.0)):
+                    new_wh = float(ans['w-2:0.box_2'] or 0) + (sol['1040.24'] - sol['1040.33']) + delta
+                    if new_wh < 0:
+                        continue
+                    ov = dict(ans, **{'w-2:0.box_2': f'{new_wh:.2f}', '1040.apply_to_estimated_tax': f'{apply_:.2f}'})
+                    q = scen.Persona(year, p.family, p.key, overrides=ov)
+                    q.nc = p.nc
+                    o2 = scen.solve_persona(q, forms=p.forms())
+                    res.count('solves')
+                    if o2.exc is not None or o2.ret is not True:
+                        continue
+                    res.evaluations += 1
+                    res.count('tiny_balance_returns')
+                    check_solution(res, year, scen.typed_solution(o2), f'{year} {fam} {p.key} [payments - tax = {delta}]', dict(realwork.replay_of(p, f'tiny-balance:{delta}', spec), overrides={'w-2:0.box_2': ov['w-2:0.box_2'], '1040.apply_to_estimated_tax': ov['1040.apply_to_estimated_tax']}))
     return res
 
 
